@@ -80,14 +80,41 @@ MUTS={
             ((~ complement) (char-set-complement (->cs `(or ,@(cdr sre)))))
             ((- difference) (maybe-ci (char-set-difference (sre->char-set (cadr sre) (flag-clear flags ~ci?))
                                                  (sre->char-set `(or ,@(cddr sre)) (flag-clear flags ~ci?)))))"""),
+ # ---- round 4: char-set construction (lib/chibi/iset/constructors.scm) and the PCRE front end; third element = file relative to WT
+ 'C1-merge-left-looks-at-left-child-only': ("""           (> (iset-start b) (iset-max-end (iset-left a))))))""","""           (> (iset-start b) (iset-end (iset-left a))))))""", 'lib/chibi/iset/constructors.scm'),
+ 'C3-pcre-brace-binds-to-literal-run': ("""             (let ((res (collect/single)))
+               (cond
+                ((null? res)
+                 (error "{ can't follow empty pattern"))""","""             (let ((res (collect)))
+               (cond
+                ((null? res)
+                 (error "{ can't follow empty pattern"))""", 'lib/chibi/regexp/pcre.scm'),
+ 'I1-merge-right-looks-at-right-child-only': ("""           (< (iset-end b) (iset-min-start (iset-right a))))))""","""           (< (iset-end b) (iset-start (iset-right a))))))""", 'lib/chibi/iset/constructors.scm'),
+ 'I2-merge-left-gap-of-one-without-bitmap': ("""(define (iset-merge-left! a b)
+  (if (or (iset-bits a) (iset-bits b)
+          (< (+ 1 (iset-end b)) (iset-start a)))""","""(define (iset-merge-left! a b)
+  (if (or (iset-bits a) (iset-bits b)
+          (< (+ 2 (iset-end b)) (iset-start a)))""", 'lib/chibi/iset/constructors.scm'),
+ 'I3-split-right-piece-starts-one-late': ("""             (iset-node-extract node (+ end 1) (iset-end node)))))""","""             (iset-node-extract node (+ end 2) (iset-end node)))))""", 'lib/chibi/iset/constructors.scm'),
+ 'I4-intersection-drops-rest-of-a-node': ("""        (lp (if a-right (cons a-right (cdr nodes-a)) (cdr nodes-a))
+            (if b-right (cons b-right (cdr nodes-b)) (cdr nodes-b))
+            (cons a res)))))))""","""        (lp (cdr nodes-a)
+            (if b-right (cons b-right (cdr nodes-b)) (cdr nodes-b))
+            (cons a res)))))))""", 'lib/chibi/iset/constructors.scm'),
+ 'I5-node-extract-mask-one-short': ("""                  (arithmetic-shift node-bits (- (iset-start node) start))
+                  (range->bits start end)))""","""                  (arithmetic-shift node-bits (- (iset-start node) start))
+                  (range->bits start (max start (- end 1)))))""", 'lib/chibi/iset/constructors.scm'),
 }
 which = sys.argv[1:] or list(MUTS)
-orig=open(F).read()
 SCR=os.environ.get('VERIF_SCRATCH','/var/tmp/verif-C20')
 EVD=os.path.join(SCR,'evidence')
 env=dict(os.environ, VERIF_REPO=WT, VERIF_SCRATCH=SCR, VERIF_EVIDENCE_DIR=EVD)
+env.setdefault('VERIF_SEED','1')
+REGEXP_SCM=F
 for name in which:
-    a,b=MUTS[name]
+    a,b=MUTS[name][:2]
+    F=os.path.join(WT,MUTS[name][2]) if len(MUTS[name])>2 else REGEXP_SCM
+    orig=open(F).read()
     assert orig.count(a)==1, name
     open(F,'w').write(orig.replace(a,b))
     try:
